@@ -162,3 +162,8 @@ class Commands:
             return cmd_type.parse(buf, params)
         except NotParseable as exc:
             return InvalidCommand(params, exc, command, cmd_type), buf[0:0]
+        except (ValueError, LookupError, RecursionError):
+            # e.g. a number with too many digits, a string that cannot be
+            # decoded with the requested charset, or nesting that is too deep
+            exc = NotParseable(buf)
+            return InvalidCommand(params, exc, command, cmd_type), buf[0:0]
